@@ -590,7 +590,7 @@ type contactEnvelope struct {
 	CreatedOn  time.Time                `json:"created_on"          validate:"required"`
 	LastSeenOn *time.Time               `json:"last_seen_on,omitempty"`
 	URNs       []urns.URN               `json:"urns,omitempty"      validate:"dive,urn"`
-	Groups     []*assets.GroupReference `json:"groups,omitempty"    validate:"dive"`
+	Groups     []*assets.GroupReference `json:"groups,omitempty"    validate:"dive,required"`
 	Fields     map[string]*Value        `json:"fields,omitempty"`
 	Ticket     json.RawMessage          `json:"ticket,omitempty"`
 }
